@@ -181,6 +181,19 @@ CHECKS.update(
     }
 )
 
+CHECKS.update(
+    {
+        "C17": (
+            "Hypothesis-generated fixed-income backtests (all five security types, coupon/cost/notional schedules) with every accounting identity recomputed from the recorded series",
+            "Generated fixed-income roots (optionally nested) over mixes of security types with irregular coupons, asymmetric holding costs, notional schedules, long/short targets, spreads and "
+            "commissions; notionals, weights, post-Rebalance target notionals (probe), coupons, holding costs, cash ledger and value attribution incl. carry, additive index and renormalised result "
+            "are recomputed independently on every date.",
+            "Coupons/costs finite where a position is open; P&L on a zero notional base is refused by bt by design and discarded.",
+            "5/C17",
+        ),
+    }
+)
+
 NOT_YET = {}
 
 ALL = ["C%02d" % i for i in range(1, 21)]
